@@ -6,8 +6,9 @@ CONSTANTS
   FieldSet <- MCFieldSet
   Admissible <- MCAdmissible
   MaxVariants = 2
-  MaxFields = 2
+  MaxFields = 3
   MaxLawFields = 2
+  Narrow = TRUE
   Vals = {0, 1}
 INVARIANTS ImplMeetsDecl ImplMeetsProp IgnoredIrrelevant Laws
 CHECK_DEADLOCK FALSE
